@@ -2,10 +2,10 @@ package main
 
 import (
 	"context"
-	"net"
 	"encoding/json"
 	"flag"
 	"fmt"
+	"net"
 	"runtime"
 	"strings"
 	"sync"
